@@ -1,0 +1,38 @@
+// SPDX-FileCopyrightText: 2026 The Pion community <https://pion.ly>
+// SPDX-License-Identifier: MIT
+
+//go:build verif
+
+package verifhooks
+
+import (
+	"github.com/pion/interceptor/internal/rtpbuffer"
+	"github.com/pion/rtp"
+)
+
+// RTPBuffer re-exports rtpbuffer.RTPBuffer.
+type RTPBuffer = rtpbuffer.RTPBuffer
+
+// RetainablePacket re-exports rtpbuffer.RetainablePacket.
+type RetainablePacket = rtpbuffer.RetainablePacket
+
+// PacketFactory re-exports rtpbuffer.PacketFactory.
+type PacketFactory = rtpbuffer.PacketFactory
+
+// PacketFactoryCopy re-exports rtpbuffer.PacketFactoryCopy.
+type PacketFactoryCopy = rtpbuffer.PacketFactoryCopy
+
+// PacketFactoryNoOp re-exports rtpbuffer.PacketFactoryNoOp.
+type PacketFactoryNoOp = rtpbuffer.PacketFactoryNoOp
+
+// NewRTPBuffer re-exports rtpbuffer.NewRTPBuffer.
+func NewRTPBuffer(size uint16) (*RTPBuffer, error) { return rtpbuffer.NewRTPBuffer(size) }
+
+// NewPacketFactoryCopy re-exports rtpbuffer.NewPacketFactoryCopy.
+func NewPacketFactoryCopy() *PacketFactoryCopy { return rtpbuffer.NewPacketFactoryCopy() }
+
+// NewPacketFactoryCopyFixedRTX is NewPacketFactoryCopy whose RTX sequence
+// numbers start at the given value instead of a random one.
+func NewPacketFactoryCopyFixedRTX(start uint16) *PacketFactoryCopy {
+	return rtpbuffer.NewPacketFactoryCopyWithSequencer(rtp.NewFixedSequencer(start))
+}
